@@ -61,7 +61,7 @@ func (w *World) Canon(sat time.Duration) string {
 		fmt.Fprintf(&sb, "S[%s|%s|%s|%s|%s|%v,%s,%v]\n", s.Kind, s.Owner, c.sym(s.Val), s.Browser, c.tm(s.At), s.Dead, s.Why, s.Used)
 	}
 	for _, m := range w.Truth.SMSLog {
-		fmt.Fprintf(&sb, "M[%s|%s|%s|%s]\n", m.Number, c.rnd(m.Code), m.Browser, c.tm(m.At))
+		fmt.Fprintf(&sb, "M[%s|%s|%s|%s|%s]\n", m.Number, c.rnd(m.Code), m.Browser, c.tm(m.At), m.For)
 	}
 	fk := make([]string, 0, len(w.Truth.Flags))
 	for k := range w.Truth.Flags {
